@@ -77,12 +77,34 @@ theorem C16_sort_row_with (v : VW) (buf : List α) (h : v.Inv buf.length) (a : A
       a.sortRowWith indexRow buf lim side row = .error e) ∧
     (row < v.numRows → v.numCols ≤ lim → ∀ p, side (readWin buf (v.rowWin row)) = .ok p → p.Perm (List.range v.numCols) →
       a.sortRowWith indexRow buf lim side row = .ok (gather buf (v.mapCells (sortColsG p)))) := by
-  sorry
+  have hl : ∀ r, r < v.numRows → (readWin buf (v.rowWin r)).length = v.numCols := fun r hr => by
+    have hin := VW.rowWin_inside h hr
+    simp only [readWin, List.length_take, List.length_drop]
+    have : (v.rowWin r).len = v.numCols := rfl
+    omega
+  refine ⟨fun hr => ?_, fun hr hlim => ?_, fun hr hlim e he => ?_, fun hr hlim p hs hp => ?_⟩
+  · simp only [Acc.sortRowWith, ha.rows, hr, not_false_eq_true, if_true, throw_eq, err_bind]
+  · have hd : sideAllocOk lim v.numCols = false := by
+      simp only [sideAllocOk, decide_eq_false_iff_not]; exact hlim
+    simp only [Acc.sortRowWith, ha.rows, hr, not_true_eq_false, if_false, ok_bind, hidx row hr, hl row hr, hd,
+      Bool.not_false, if_true, throw_eq, err_bind]
+  · have hd : sideAllocOk lim v.numCols = true := by
+      simp only [sideAllocOk, decide_eq_true_eq]; exact hlim
+    simp only [Acc.sortRowWith, ha.rows, hr, not_true_eq_false, if_false, ok_bind, hidx row hr, hl row hr, hd,
+      Bool.not_true, Bool.false_eq_true, he, err_bind]
+  · have hd : sideAllocOk lim v.numCols = true := by
+      simp only [sideAllocOk, decide_eq_true_eq]; exact hlim
+    simp only [Acc.sortRowWith, ha.rows, hr, not_true_eq_false, if_false, ok_bind, hidx row hr, hl row hr, hd,
+      Bool.not_true, Bool.false_eq_true, hs]
+    exact C16_apply_col_perm v buf h a ha p hp
 
 /-- the key row of a view has `num_cols` cells -/
 theorem C16_key_row_length (v : VW) (buf : List α) (h : v.Inv buf.length) (row : Nat) (hr : row < v.numRows) :
     (readWin buf (v.rowWin row)).length = v.numCols := by
-  sorry
+  have hin := VW.rowWin_inside h hr
+  simp only [readWin, List.length_take, List.length_drop]
+  have : (v.rowWin row).len = v.numCols := rfl
+  omega
 
 /-- `sort_by_row(row, compare)` -/
 theorem C16_sort_by_row (v : VW) (buf : List α) (h : v.Inv buf.length) (a : Acc) (ha : a.Of v buf.length)
@@ -92,7 +114,11 @@ theorem C16_sort_by_row (v : VW) (buf : List α) (h : v.Inv buf.length) (a : Acc
       a.sortByRow indexRow buf lim le row =
         .ok (gather buf (v.mapCells (sortColsG (stablePerm le (readWin buf (v.rowWin row))))))) ∧
     (¬ row < v.numRows → a.sortByRow indexRow buf lim le row = .error .panic) := by
-  sorry
+  obtain ⟨h1, _, _, h4⟩ := C16_sort_row_with v buf h a ha indexRow hidx lim (sideStable le) row
+  refine ⟨fun hr => ?_, fun hr => h1 hr⟩
+  have hp := stablePerm_perm le (readWin buf (v.rowWin row))
+  rw [C16_key_row_length v buf h row hr] at hp
+  exact h4 hr hlim _ rfl hp
 
 /-- `sort_unstable_by_row(row, compare)`: for every permutation the side sort may return -/
 theorem C16_sort_unstable_by_row (v : VW) (buf : List α) (h : v.Inv buf.length) (a : Acc) (ha : a.Of v buf.length)
@@ -100,7 +126,8 @@ theorem C16_sort_unstable_by_row (v : VW) (buf : List α) (h : v.Inv buf.length)
     (lim : Nat) (hlim : v.numCols ≤ lim) (p : List Nat) (hp : p.Perm (List.range v.numCols)) (row : Nat) :
     (row < v.numRows → a.sortUnstableByRow indexRow buf lim p row = .ok (gather buf (v.mapCells (sortColsG p)))) ∧
     (¬ row < v.numRows → a.sortUnstableByRow indexRow buf lim p row = .error .panic) := by
-  sorry
+  obtain ⟨h1, _, _, h4⟩ := C16_sort_row_with v buf h a ha indexRow hidx lim (sideGiven p) row
+  exact ⟨fun hr => h4 hr hlim p rfl hp, fun hr => h1 hr⟩
 
 /-- the key and natural-order variants are the comparator variants with the derived comparator (src/sort.rs:68-76, 147-164) -/
 theorem C16_variants_delegate {κ : Type} (a : Acc) (indexRow : Nat → Res Win) (buf : List α) (lim : Nat)
@@ -178,7 +205,30 @@ theorem C16_sort_by_row_ordered (v : VW) (buf : List α) (h : v.Inv buf.length) 
       (readWin buf' (v.rowWin row)).Pairwise (fun x y => le x y = true) ∧
       (∀ i j, i < j → j < v.numCols → ∀ x y, buf[v.pos (p.getD i 0) row]? = some x → buf[v.pos (p.getD j 0) row]? = some y →
         le y x = true → p.getD i 0 < p.getD j 0) := by
-  sorry
+  have hl := C16_key_row_length v buf h row hr
+  obtain ⟨hperm, hsorted, hstab⟩ := C16_stable_perm le htrans htotal (readWin buf (v.rowWin row))
+  have hperm' : (stablePerm le (readWin buf (v.rowWin row))).Perm (List.range v.numCols) := by
+    rw [hl] at hperm; exact hperm
+  have hplen : (stablePerm le (readWin buf (v.rowWin row))).length = v.numCols := by
+    rw [hperm'.length_eq, List.length_range]
+  have hfacts := perm_range_facts (stablePerm le (readWin buf (v.rowWin row))) (by rw [hplen]; exact hperm')
+  have hkey : ∀ k, k < v.numCols →
+      (readWin buf (v.rowWin row))[(stablePerm le (readWin buf (v.rowWin row))).getD k 0]?
+        = buf[v.pos ((stablePerm le (readWin buf (v.rowWin row))).getD k 0) row]? := by
+    intro k hk
+    have hpk : (stablePerm le (readWin buf (v.rowWin row))).getD k 0 < v.numCols := by
+      have := hfacts.1 k (by omega); omega
+    rw [readWin_getElem?,
+      if_pos (show (stablePerm le (readWin buf (v.rowWin row))).getD k 0 < (v.rowWin row).len from hpk)]
+    show buf[v.pos 0 row + _]? = _
+    rw [VW.pos_zero_add]
+  refine ⟨stablePerm le (readWin buf (v.rowWin row)), _,
+    (C16_sort_by_row v buf h a ha indexRow hidx lim hlim le row).1 hr, hperm', rfl,
+    (C16_result_row_sorted v buf h _ hperm' row hr le hsorted).1, ?_⟩
+  intro i j hij hj x y hx hy hyx
+  rw [← hkey i (by omega)] at hx
+  rw [← hkey j hj] at hy
+  exact hstab i j hij (by omega) x y hx hy hyx
 
 /-- the same for the key-function variant: the chosen row ends up ordered by the keys -/
 theorem C16_sort_by_row_key_ordered {κ : Type} (v : VW) (buf : List α) (h : v.Inv buf.length) (a : Acc) (ha : a.Of v buf.length)
@@ -189,12 +239,31 @@ theorem C16_sort_by_row_key_ordered {κ : Type} (v : VW) (buf : List α) (h : v.
     ∃ p buf', a.sortByRowKey indexRow buf lim key leK row = .ok buf' ∧ p.Perm (List.range v.numCols) ∧
       buf' = gather buf (v.mapCells (sortColsG p)) ∧
       (readWin buf' (v.rowWin row)).Pairwise (fun x y => leK (key x) (key y) = true) := by
-  sorry
+  obtain ⟨p, buf', e, hp, hb, hs, _⟩ := C16_sort_by_row_ordered v buf h a ha indexRow hidx lim hlim
+    (fun x y => leK (key x) (key y)) (fun a b c => htrans (key a) (key b) (key c)) (fun a b => htotal (key a) (key b)) row hr
+  exact ⟨p, buf', e, hp, hb, hs⟩
 
 /-- non-vacuity: a 3x2 owned array sorted by its row 0 (keys 30,10,20): columns move as wholes -/
 example : (⟨[30, 10, 20, 1, 2, 3], 2, 3⟩ : TD Nat).acc.sortByRow
       ((⟨[30, 10, 20, 1, 2, 3], 2, 3⟩ : TD Nat).indexRow .debug) [30, 10, 20, 1, 2, 3] 100 (fun a b => decide (a ≤ b)) 0
     = .ok [10, 20, 30, 2, 3, 1] := by
-  sorry
+  have h : (⟨[30, 10, 20, 1, 2, 3], 2, 3⟩ : TD Nat).Inv := ⟨rfl, by decide, by decide⟩
+  obtain ⟨hv, _⟩ := TD.asView_inv _ h
+  have ha : (⟨[30, 10, 20, 1, 2, 3], 2, 3⟩ : TD Nat).acc.Of (⟨[30, 10, 20, 1, 2, 3], 2, 3⟩ : TD Nat).asView 6 := by
+    obtain ⟨hwf, habs⟩ := C08_rows_owned _ h
+    exact ⟨rfl, rfl, hwf, habs⟩
+  have hidx : ∀ r, r < 2 → (⟨[30, 10, 20, 1, 2, 3], 2, 3⟩ : TD Nat).indexRow .debug r
+      = .ok ((⟨[30, 10, 20, 1, 2, 3], 2, 3⟩ : TD Nat).asView.rowWin r) := by
+    intro r hr
+    match r, hr with
+    | 0, _ => rfl
+    | 1, _ => rfl
+  have hs := (C16_sort_by_row _ _ hv _ ha _ hidx 100 (by decide) (fun a b => decide (a ≤ b)) 0).1 (by decide)
+  rw [hs]
+  have hp : stablePerm (fun a b : Nat => decide (a ≤ b)) [30, 10, 20] = [1, 2, 0] := by
+    simp [stablePerm, List.zipIdx, List.mergeSort, List.MergeSort.Internal.splitInTwo]
+  have hk : readWin [30, 10, 20, 1, 2, 3] ((⟨[30, 10, 20, 1, 2, 3], 2, 3⟩ : TD Nat).asView.rowWin 0) = [30, 10, 20] := rfl
+  rw [hk, hp]
+  rfl
 
 end Toodee
